@@ -7,6 +7,7 @@ import os
 
 from verif.engines import compile_sim as cs
 from verif.checks import c09
+from verif.gen import mibgen
 from verif.sim import core
 
 PROPERTY = 'C19'
@@ -137,7 +138,8 @@ def judge(t):
         if not opts.get('rebuild') and isinstance(c.res, tuple):
             bm = getattr(c.res[0], 'mtime', None)
             newer = [i_ for i_, se in enumerate(scn.get('searchers', ())) if se.get('flavour') == 'age' and se.get('have', {}).get(m) is not None and bm is not None and se['have'][m] >= bm]
-            if newer and (puts.get(m) or s == 'borrowed'):
+            disturbed = any(x.mib == m and (x.injected or type(x.exc).__name__ not in ('NoneType', 'PySmiFileNotModifiedError', 'PySmiFileNotFoundError')) for x in t.by('searcher.fileExists'))
+            if newer and not disturbed and (puts.get(m) or s == 'borrowed'):
                 V('C19.3-verbatim', 'searcher %d holds a copy of %s that is not older than the borrower\'s (%s >= %s), yet the borrowed copy was %s' % (
                     newer[0], m, scn['searchers'][newer[0]]['have'][m], bm, 'written' if puts.get(m) else 'reported borrowed'), what='borrowed-over-fresher-copy', module=m)
         if s == 'borrowed' and opts.get('writeMibs', True) and not any(p.ok for p in puts.get(m, [])):
@@ -177,6 +179,8 @@ def judge(t):
 
 
 def run(scn):
+    if scn.get('layer') == 3:
+        return run_layer3(scn)
     if scn.get('layer') == 2:
         return run_layer2(scn)
     t = cs.run_world(scn)
@@ -191,8 +195,91 @@ def run(scn):
     return cs.outcome(t, viol, nontrivial=nontriv, extra_sig=[[b.get('genTexts') for b in scn.get('borrowers', ())]])
 
 
+# --------------------------------------------------------------------------
+# layer 3: borrowers as the command-line tool sets them up (several --mib-borrower options, some repeated, the
+# --generate-mib-texts switch somewhere among them: a borrower's flavour is the state of the switch where it is named)
+# --------------------------------------------------------------------------
+def gen_layer3(rng, tier):
+    nb = rng.choice([2, 2, 3])
+    items = [('b', i) for i in range(nb)]
+    if rng.random() < 0.6:
+        items.append(('b', rng.randrange(nb)))        # the same directory named twice
+    if rng.random() < 0.7:
+        items.append(('texts', None))
+    rng.shuffle(items)
+    holds = [rng.random() < 0.55 for _ in range(nb)]
+    return {'layer': 3, 'items': items, 'holds': holds, 'variant': rng.choice(['lex', 'syntax', 'cut', 'badref']), 'listing_seed': rng.randrange(1 << 30)}
+
+
+def run_layer3(scn):
+    from verif.checks import c20
+    from verif.gen import basemibs
+    root = core.new_root('c19s')
+    viol = []
+
+    def V(clause, msg, **facts):
+        viol.append({'clause': clause, 'key': '%s|%s' % (clause, facts.get('what', '')), 'facts': facts, 'message': msg})
+    try:
+        src, dst = os.path.join(root, 'src'), os.path.join(root, 'dst')
+        spec = {'name': 'AAA-MIB', 'imports': [], 'oidparent': None, 'arc': 48, 'identity': True, 'nobj': 1, 'arcs': [1], 'compliance': False, 'variant': scn['variant']}
+        bdirs = [os.path.join(root, 'bor%d' % i) for i in range(len(scn['holds']))]
+        with core.unhooked():
+            os.makedirs(src)
+            for n, txt in basemibs.ALL_BASE.items():
+                with open(os.path.join(src, n), 'w') as f:
+                    f.write(txt)
+            with open(os.path.join(src, 'AAA-MIB'), 'w') as f:
+                f.write(mibgen.render(spec, {'AAA-MIB': spec}))
+            for i, d in enumerate(bdirs):
+                os.makedirs(d)
+                if scn['holds'][i]:
+                    with open(os.path.join(d, 'AAA-MIB.json'), 'w') as f:
+                        f.write('{"borrowed": "AAA-MIB", "from": %d}\n' % i)
+        argv = ['--mib-source=file://' + src, '--mib-searcher=nosuchpkg_sim', '--destination-directory=' + dst, '--destination-format=json']
+        texts = False
+        flav = []
+        for kind, i in scn['items']:
+            if kind == 'texts':
+                argv.append('--generate-mib-texts')
+                texts = True
+            else:
+                argv.append('--mib-borrower=' + bdirs[i])
+                flav.append((i, texts))
+        argv.append('AAA-MIB')
+        w = core.World(root=root, listing_seed=scn.get('listing_seed'), clock=core.EPOCH0)
+        core.patch_pysmi()
+        cap = c20._Capture()
+        with w:
+            w.begin_op(0, 'mibdump')
+            code, err = c20.run_script(c20.MIBDUMP, argv, w, cap)
+            w.end_op(str(code))
+        R = cap.maps[-1] if cap.maps else {}
+        # ground truth: the first borrower, in the order named, whose flavour equals the request's and which holds the module
+        want = [i for (i, fl) in flav if fl == texts and scn['holds'][i]]
+        got = core.read_bytes(os.path.join(dst, 'AAA-MIB.json'))
+        st = str(R.get('AAA-MIB'))
+        if isinstance(code, str):
+            V('C19.2-flavour-order', 'mibdump died with %s' % code, what='script-died')
+        elif want:
+            exp = ('{"borrowed": "AAA-MIB", "from": %d}\n' % want[0]).encode()
+            if st != 'borrowed' or got != exp:
+                V('C19.2-flavour-order', 'borrower directory %d (named %s --generate-mib-texts, request %s texts) holds the module; status %s, stored copy %r' % (
+                    want[0], 'after' if texts else 'without', 'with' if texts else 'without', st, got), what='script-borrower-not-used')
+        else:
+            if st == 'borrowed' or got is not None:
+                V('C19.2-flavour-order', 'no borrower of the requested flavour holds the module, yet it is %s (stored %r)' % (st, got), what='script-wrong-flavour-used')
+        fp, fph = w.fingerprints(extra=[st, code])
+        return {'violations': viol, 'sig': 'L3|%s|%s|%s' % (st, bool(want), [k for k, _ in scn['items']]), 'nontrivial': True, 'events': len(w.log), 'sim_s': 0,
+                'fired': {}, 'probes': {'layer3-script-borrowers': 1}, 'fp': fp, 'fph': fph, 'comps': {'mibdump(real script)': 1}}
+    finally:
+        core.drop_root(root)
+
+
 def generate(rng, tier):
-    if rng.random() < 0.25:
+    r_ = rng.random()
+    if r_ < 0.015:
+        return gen_layer3(rng, tier)
+    if r_ < 0.25:
         return gen_layer2(rng, tier)
     scn = cs.gen_world(rng, tier, focus='C19')
     if rng.random() < 0.6:
@@ -204,18 +291,24 @@ def generate(rng, tier):
 
 
 def shrink(scn):
+    if scn.get('layer') == 3:
+        return iter(())
     if scn.get('layer') == 2:
         return shrink_layer2(scn)
     return cs.shrink_world(scn)
 
 
 def size(scn):
+    if scn.get('layer') == 3:
+        return {'argv-items': len(scn.get('items', []))}
     if scn.get('layer') == 2:
         return {'files': len(scn.get('tree', {}))}
     return cs.size(scn)
 
 
 def describe(scn, out):
+    if scn.get('layer') == 3:
+        return {'scenario': {k: v for k, v in scn.items() if k != '_world'}}
     if scn.get('layer') == 2:
         return {'scenario': {k: v for k, v in scn.items() if k != '_world'}, 'result': out.get('result')}
     return cs.describe(scn, out)
